@@ -5,18 +5,25 @@ from evalutil import *
 
 ID = "C17"
 LEVEL = "proof"
-MODULES = ["H3Proofs.Props.C17", "H3Proofs.Props.C17Disk"]
+MODULES = ["H3Proofs.Props.C17", "H3Proofs.Props.C17Disk", "H3Proofs.Props.C17Poly"]
 THEOREMS = "auto"
 ASSUMPTIONS = ["compactCells / gridDisk / areNeighborCells are modelled with their exact allocation structure "
-               "(traces compared event by event, sizes included, at every failure index); for the three polygon "
-               "functions the allocation discipline is checked on the real code only (every failure index), not "
-               "proved: their data path depends on floating-point geometry"]
-NOT_PROVED = ["alloc_clean for polygonToCells / polygonToCellsExperimental / maxPolygonToCellsSizeExperimental "
-              "(fault enumeration on the real code instead)"]
+               "(traces compared event by event, sizes included, at every failure index)",
+               "polygonToCellsExperimental / maxPolygonToCellsSizeExperimental are modelled with their allocation structure "
+               "(H3Model/PolyAlloc.lean: argument checks, the single calloc of the bounding boxes, the three exits that "
+               "release it); what the floating-point iteration delivers (number of cells, iterator error) is a parameter "
+               "of the model, universally quantified in the theorems and supplied by the real library's default-allocator "
+               "run in the correspondence stream alloc-traces-polygon (traces compared event by event, failure indexes "
+               "0..2, capacities below / at / above the cell count, argument errors)",
+               "the legacy polygonToCells (three blocks, ten exits) is checked on the real code only (every failure "
+               "index), not proved: its control flow depends on floating-point geometry throughout"]
+NOT_PROVED = ["alloc_clean for the legacy polygonToCells (fault enumeration on the real code instead)"]
 EXPLANATION = ("for every failure schedule and every input the compactCells model frees everything, frees nothing "
                "twice, reports an injected failure as E_MEMORY_ALLOC and is identical to the default allocator "
-               "otherwise (Lean, all schedules); the C traces are compared with the model's at every index; the "
-               "polygon functions are enumerated at every failure index on the real library")
+               "otherwise (Lean, all schedules); the same four clauses are theorems for gridDisk / areNeighborCells (C17Disk) and "
+               "for polygonToCellsExperimental / maxPolygonToCellsSizeExperimental for every outcome of the geometry "
+               "(C17Poly); the C traces are compared with the model's at every index; all three polygon functions are in "
+               "addition enumerated at every failure index on the real library")
 RULE = ("inputs x every allocation index 1..n+1 x {fail once, fail from n on}; non-trivial = a run in which an "
         "injected failure actually fired")
 
@@ -127,6 +134,43 @@ def _pair_ops(ctx, rng):
 
 def streams(rng, tier):
     return [("alloc-traces", _ops(rng, tier))]
+
+
+def streams_ctx(ctx, rng, tier):
+    """polygonToCellsExperimental / maxPolygonToCellsSizeExperimental against H3Model/PolyAlloc.lean: the op line carries
+    what the real iterator did with the default allocator (number of cells, error), everything else is the model;
+    traces compared event by event at failure indexes 0..2, with capacities below / at / above the cell count"""
+    polys = []
+    for res, loops in _end_of_order_polys(ctx):
+        polys.append((res, loops))
+    for loops in _polys(rng, tier):
+        for res in (1, 2, 3):
+            polys.append((res, loops))
+    probe = []
+    for res, loops in polys:
+        probe.append(f"apolyfillx 0 0 {res} 0 {gen.poly_str(loops)}")
+    base = ctx.c(probe, tag="apolyxs-probe")
+    ops = []
+    for (res, loops), a in zip(polys, base):
+        ps = gen.poly_str(loops)
+        head = a.split(" live=")[0].split()
+        if not head or head[0] == "err-size":
+            continue
+        if head[0] == "ok":
+            ncells, iterr = int(head[1]), 0
+        else:
+            ncells, iterr = 0, int(head[1])
+        for flags in (0,):      # the cell count was probed for mode 0 only
+            for size in sorted({0, max(ncells - 1, 0), ncells, ncells + 3}):
+                for i in (0, 1, 2):
+                    ops.append(f"apolyxs {i} {i % 2} {res} {flags} {size} {ncells} {iterr} {ps}")
+        for i in (0, 1, 2):
+            ops.append(f"amaxpolyxs {i} 0 {res} 0 {iterr} {ps}")
+        # argument errors come before the allocation
+        for res2, fl2 in ((16, 0), (-1, 0), (res, 4), (res, 16), (res, 7)):
+            ops.append(f"apolyxs 1 0 {res2} {fl2} {ncells} {ncells} {iterr} {ps}")
+            ops.append(f"amaxpolyxs 1 0 {res2} {fl2} {iterr} {ps}")
+    return [("alloc-traces-polygon", ops)]
 
 
 def _check(op, a, base):
